@@ -34,7 +34,7 @@ def rand_layout(r, mfm, nsec):
         order = order[s:] + order[:s]
     return flux.TrackLayout(gap1=r.choice([0, 1, 16, 40]) if not mfm else r.choice([1, 16, 80]),
                             sync=r.choice([2, 3, 6, 12]), gap2=r.choice([1, 11, 22, 40]) if not mfm else r.choice([1, 22, 40]),
-                            gap3=r.choice([1, 10, 21, 54]), gap4=r.choice([2, 16, 40, 200]),
+                            gap3=r.choice([1, 10, 21, 54]), gap4=r.choice([1, 2, 3, 16, 40, 200]),
                             fill=0xFF if not mfm else r.choice([0x4E, 0x4E, 0x00, 0xFF]) , order=order, mfm=mfm)
 
 
@@ -209,13 +209,16 @@ def flux_variants(r, d, img_sides, quick, k=0):
         kinds = [kinds[k % len(kinds)]]
     for kind in kinds:
         trs = flux.tracks_of_image(full, tracks, spt, sides, mfm, lay_for=lambda t, sd: rand_layout(r, mfm, spt))
+        # container freedoms: HxC track data anywhere in the file, in any order, with padding between tracks; the HFE LUT records
+        # either the bytes of track data or the 512-byte blocks they occupy; the last block padded or not
+        exact = (k // 3) % 2 == 0
         if kind == 'hxc':
-            yield 'x.mfm', flux.hxcmfm_image(trs, sides), kind
+            yield 'x.mfm', flux.hxcmfm_image(trs, sides, gap_rng=r.fork(), shuffle=r.chance(1, 2)), kind
         elif kind == 'hfe1':
-            yield 'x.hfe', flux.hfe_image(trs, sides, not mfm, pad_last=r.chance(3, 4)), kind
+            yield 'x.hfe', flux.hfe_image(trs, sides, not mfm, pad_last=r.chance(3, 4), lut_exact=exact), kind
         else:
             yield 'y.hfe', flux.hfe_image(trs, sides, not mfm, v3=True, opcode_rng=r.fork(), opcode_density=r.choice([3, 30, 300]),
-                                          straddle=r.chance(1, 2)), kind
+                                          straddle=r.chance(1, 2), lut_exact=exact), kind
 
 
 def run_e2e(ctx, r, quick):
@@ -223,8 +226,8 @@ def run_e2e(ctx, r, quick):
     cases = []
     ndiscs = 6 if quick else 60
     for k in range(ndiscs):
-        two = r.chance(1, 3)
-        geom = r.choice([(40, 10), (80, 10), (35, 10), (40, 18), (80, 18), (40, 16)] if not quick else [(40, 10), (40, 18), (35, 10), (40, 16)])
+        two = (k % 2 == 1) if quick else r.chance(1, 3)
+        geom = r.choice([(40, 10), (80, 10), (35, 10), (40, 18), (80, 18), (40, 16)]) if not quick else [(40, 10), (40, 18), (35, 18), (40, 16), (35, 10), (40, 18)][k % 6]
         variant = r.choice(['dfs', 'wdfs']) if geom[1] != 18 else r.choice(['dfs', 'wdfs', 'opus'])
         # the catalogue's sector count is that of a disc formatted with this geometry: a sector dump carries no other record of the
         # track count (dfs guesses it from that count), whereas a flux image records it
